@@ -44,6 +44,8 @@ type AssertBefore struct {
 	Assume     bool // assume_after: a trusted contract for an opaque call in the anchor statement (function value, I/O): assumed, never proved, listed as an assumption
 	Anchor     string
 	Clause     *Clause
+	LetName    string // let_after: binds a specification-only local (name, type) to the clause's value after the anchor
+	LetType    string
 }
 
 type LoopSpec struct {
@@ -81,6 +83,7 @@ type FuncSpec struct {
 	Strings       bool // theory strings
 	Untrusted     bool
 	Pragmas       map[string]string
+	UseLemmas     []string // use_lemma <name>: the (separately proved) lemma of this package is assumed, universally quantified, at entry
 	Line          int
 	File          string
 }
@@ -114,7 +117,7 @@ var clauseKeywords = map[string]bool{
 	"func": true, "trusted": true, "pure": true, "inline": true, "ignore": true, "spec": true, "lemma": true, "import": true,
 	"requires": true, "requires_inv": true, "ensures": true, "modifies": true, "loop": true, "arith": true, "overflow": true, "allow_panic": true,
 	"theory": true, "untrusted_input": true, "pragma": true, "assert": true, "note": true, "tparams": true, "ghost": true, "decl": true, "atcall": true, "ignorepkg": true, "trusted_ensures": true,
-	"guarded_by": true, "requires_held": true, "holds_during": true, "lock_order": true, "unshared": true, "lock_alias": true, "assert_before": true, "assert_after": true, "hint_after": true, "hint_before": true, "assume_after": true, "closure_requires": true,
+	"guarded_by": true, "requires_held": true, "holds_during": true, "lock_order": true, "unshared": true, "lock_alias": true, "assert_before": true, "assert_after": true, "hint_after": true, "hint_before": true, "assume_after": true, "closure_requires": true, "let_after": true, "use_lemma": true,
 }
 
 type rawClause struct {
@@ -420,6 +423,26 @@ func loadContracts(dir, pkgPath string) (*PkgContracts, error) {
 					return nil, fmt.Errorf("%s:%d: assert_before: unterminated anchor", path, c.line)
 				}
 				cur.AssertsBefore = append(cur.AssertsBefore, &AssertBefore{After: c.kw != "assert_before" && c.kw != "hint_before", Hint: c.kw == "hint_after" || c.kw == "hint_before", Assume: c.kw == "assume_after", Anchor: t[1 : 1+k], Clause: &Clause{Text: strings.TrimSpace(t[2+k:]), Line: c.line}})
+			case "use_lemma":
+				cur.UseLemmas = append(cur.UseLemmas, strings.Fields(c.text)...)
+			case "let_after":
+				// let_after "<anchor>" name type = <expr>: a specification-only local, bound once after the
+				// anchor statement and visible to later loop invariants and anchored assertions
+				t := strings.TrimSpace(c.text)
+				k := -1
+				if strings.HasPrefix(t, "\"") {
+					k = strings.Index(t[1:], "\"")
+				}
+				if k < 0 {
+					return nil, fmt.Errorf("%s:%d: let_after \"anchor\" name type = <expr>", path, c.line)
+				}
+				rest := strings.TrimSpace(t[2+k:])
+				eq := strings.Index(rest, "=")
+				hd := strings.Fields(rest[:max(eq, 0)])
+				if eq < 0 || len(hd) != 2 {
+					return nil, fmt.Errorf("%s:%d: let_after \"anchor\" name type = <expr>", path, c.line)
+				}
+				cur.AssertsBefore = append(cur.AssertsBefore, &AssertBefore{After: true, Anchor: t[1 : 1+k], LetName: hd[0], LetType: hd[1], Clause: &Clause{Text: strings.TrimSpace(rest[eq+1:]), Line: c.line}})
 			case "atcall":
 				// atcall <CalleeName> <expr over caller variables and the callee's parameter names>
 				f := strings.SplitN(strings.TrimSpace(c.text), " ", 2)
@@ -701,7 +724,23 @@ func (pc *PkgContracts) genSpecFileX(imports []string, locals func(fs *FuncSpec,
 					lv = append(lv, Param{l.Name, l.Type})
 				}
 			}
-			if err := emit(fmt.Sprintf("__assert_%s_%d", base, i), fs.TParams, lv, "bool", ab.Clause); err != nil {
+			ret := "bool"
+			if ab.LetName != "" {
+				ret = ab.LetType
+			}
+			for _, prev := range fs.AssertsBefore[:i] {
+				if prev.LetName != "" {
+					lv = append(lv, Param{prev.LetName, prev.LetType})
+				}
+			}
+			if ab.LetName == "" {
+				for _, next := range fs.AssertsBefore[i:] {
+					if next.LetName != "" {
+						lv = append(lv, Param{next.LetName, next.LetType})
+					}
+				}
+			}
+			if err := emit(fmt.Sprintf("__assert_%s_%d", base, i), fs.TParams, lv, ret, ab.Clause); err != nil {
 				return "", err
 			}
 		}
@@ -717,6 +756,11 @@ func (pc *PkgContracts) genSpecFileX(imports []string, locals func(fs *FuncSpec,
 			if locals != nil {
 				for _, l := range locals(fs, n) {
 					lv = append(lv, Param{l.Name, l.Type})
+				}
+			}
+			for _, ab := range fs.AssertsBefore {
+				if ab.LetName != "" {
+					lv = append(lv, Param{ab.LetName, ab.LetType})
 				}
 			}
 			for i, c := range ls.Invariants {
